@@ -4,6 +4,18 @@ NOTES = ("All checks are generated-input search against explicit oracles (proper
          "Known findings: /verif/known_findings.json. Seeded breakages: /verif/seeded/.")
 NOT_APPLICABLE = {}
 CHECKS = {
+    "C01": {
+        "text": "Thousands of generated (schema, frame) pairs per run (data first, schema derived with check arguments on/next to the observed boundaries, then repaired to conforming and re-tightened by one mutation) are validated eagerly and lazily and the accept/reject verdict is compared in both directions with an independent pure-Python reference model of the declarative vocabulary; on accept the returned object must equal the input. Exploration: no absence claim beyond the cases generated.",
+        "design_ref": "DESIGN.md §2 C01, §1.3-1.4",
+        "note": "Trusts harness/refmodel.py as the reading of the docs (conventions listed in DESIGN §6); regions where the docs define no semantics are skipped and counted in evidence.",
+        "technique": "Hypothesis generators + independent reference model (differential, both directions)",
+    },
+    "C02": {
+        "text": "Generated multi-violation (schema, frame) pairs: lazy raises iff eager raises, the eager error is among the lazy errors, error_counts equal the per-reason number of collected errors, and the lazy failure_cases table equals the reference model's offending (column, row label, value) multiset plus one scalar entry per frame-level violation. Exploration level.",
+        "design_ref": "DESIGN.md §2 C02",
+        "note": "Trusts the reference model and the documented layout of SchemaErrors.failure_cases; 5 recorded known findings are excluded by narrow predicates; report exactness is not scored for duplicated labels / overlapping regex columns / checks run on wrong-dtype data.",
+        "technique": "Hypothesis generators + reference model, lazy-vs-eager differential",
+    },
     "C18": {
         "text": "Exhaustive enumeration of all 108 config_context option tuples at nesting depth 1-2 with an exception at every level and of all 108 documented env settings; Hypothesis for depth 3-4 nestings, entry styles, disabled-validation identity over every entry point and (S,D) depth decomposition against the reference model. Exploration: absence is not established beyond the enumerated finite parts.",
         "design_ref": "DESIGN.md §2 C18",
